@@ -45,6 +45,19 @@ def build_db(which):
 PROBES = [0.0, 1.0, -1.0, 2.5, 1000.0, -273.15, 1e-3, 12345.678]
 
 
+def _in_limits(ci):
+    """Measured: the category's default value against its own limits (floats compared as floats)."""
+    v = ci.default_value
+    try:
+        if ci.min_value is not None and not (v > ci.min_value if ci.is_min_exclusive else v >= ci.min_value):
+            return False
+        if ci.max_value is not None and not (v < ci.max_value if ci.is_max_exclusive else v <= ci.max_value):
+            return False
+    except TypeError:
+        return False
+    return True
+
+
 def project_db(db):
     rows = []
     for qt, infos in db.quantity_types.items():
@@ -78,6 +91,7 @@ def project_db(db):
             "has_max": ci.max_value is not None, "max": repr(ci.max_value),
             "minx": bool(ci.is_min_exclusive), "maxx": bool(ci.is_max_exclusive),
             "caption": ci.caption,
+            "dv_in_limits": _in_limits(ci),
         })
     legacy = [[a, b] for a, b in _udb._LEGACY_TO_CURRENT]
     return {"rows": rows, "cats": cats, "legacy": legacy,
